@@ -172,6 +172,10 @@ func genStream(rng *rand.Rand, kind string) *Spec {
 			sp.Stop.AfterCalls = rng.IntN((total+2)*len(sp.Calls) + 1)
 		}
 	}
+	// a stream which is never told to dry up has no use for its grace period: zero (or next to zero) is as good as any
+	if st.Dry == "none" && rng.IntN(3) == 0 {
+		st.GraceUs = []int64{0, 0, 1, 3}[rng.IntN(4)]
+	}
 	// slow consumer: one pause >= grace, usually immediately followed by the consumer's own DryUp()
 	if (st.Dry == "async" || st.Dry == "inline") && sp.Fault == nil && sp.Stop == nil && rng.IntN(100) < 12 {
 		st.SlowAfterItems = rng.IntN(total + 1)
